@@ -196,6 +196,15 @@ def oracle_line(ctx, line, impl_out):
                     if isinstance(e, str) or impl(t.decode, e) != v:
                         ctx.fail("roundtrip", {"min": 0, "max": w, "value": v}, show(e), v, "types.Integer.__init__ (bit count)")
                         return
+                # targeted: the largest raw values are the ones that can escape the single wrap-around
+                nb = t.nbits
+                for raw in [2 ** nb - 1 - j for j in range(64)] + [2 * w + j for j in range(1, 8)] + [w + j for j in range(0, 4)]:
+                    if 0 <= raw < 2 ** nb:
+                        bits = impl(T.bin2gray, impl(T.int2bin, raw, nb))
+                        d = impl(t.decode, bits) if not isinstance(bits, str) else bits
+                        if isinstance(d, str) or not (0 <= d <= w):
+                            ctx.fail("range", {"min": 0, "max": w, "bits": show(bits)}, d, f"in [0,{w}]", "types.Integer.__init__ (bit count)")
+                            return
                 import random as _r
                 rr = _r.Random(w)
                 for _ in range(2000):
